@@ -179,18 +179,30 @@ class Interp2(Interp):
         return self.resolve_ite(self.rw(start)), self.resolve_ite(self.rw(length))
 
     def resolve_ite(self, t, depth=0):
-        """Replace top-level if-then-else by the branch the path condition selects."""
-        if depth > 6 or not z3.is_app(t):
+        """Replace if-then-else sub-terms by the branch the path condition selects (integer/boolean terms:
+        conditions, branches and arithmetic/comparison operands are visited, bottom-up, bounded depth)."""
+        if depth > 8 or not z3.is_app(t):
             return t
         k = t.decl().kind()
         if k == z3.Z3_OP_ITE:
-            c = t.arg(0)
+            c = self.resolve_ite(t.arg(0), depth + 1)
             if self.entails_cheap(c):
                 return self.resolve_ite(self.rw(t.arg(1)), depth + 1)
             if self.entails_cheap(z3.Not(c)):
                 return self.resolve_ite(self.rw(t.arg(2)), depth + 1)
-            return t
-        if k in (z3.Z3_OP_ADD, z3.Z3_OP_SUB, z3.Z3_OP_MUL) and t.num_args() <= 4:
+            a = self.resolve_ite(t.arg(1), depth + 1)
+            b = self.resolve_ite(t.arg(2), depth + 1)
+            if a.sort().kind() == z3.Z3_INT_SORT:
+                # max(x, 0)-like shapes: one branch equals the other whenever its condition holds
+                if self.entails_cheap(z3.Implies(c, a == b)):
+                    return b
+                if self.entails_cheap(z3.Implies(z3.Not(c), a == b)):
+                    return a
+            if c is t.arg(0) and a is t.arg(1) and b is t.arg(2):
+                return t
+            return self.rw(z3.If(c, a, b))
+        if k in (z3.Z3_OP_ADD, z3.Z3_OP_SUB, z3.Z3_OP_MUL, z3.Z3_OP_LE, z3.Z3_OP_LT, z3.Z3_OP_GE, z3.Z3_OP_GT,
+                 z3.Z3_OP_NOT, z3.Z3_OP_AND, z3.Z3_OP_OR) and t.num_args() <= 4:
             ch = [self.resolve_ite(c, depth + 1) for c in t.children()]
             if any(a is not b for a, b in zip(ch, t.children())):
                 return self.rw(t.decl()(*ch))
